@@ -55,7 +55,7 @@ def plan(tier, seed):
 
 def mandatory(tier):
     out = [f"matmul/{a}x{b}/{ba}x{bb}/D{D}" for a in FORMS for b in FORMS for ba in BATCH for bb in BATCH for D in (2, 3)]
-    out += [f"order/{o}" for o in ORDERS] + ["euler2d", "euler_angles/ZXZ", "euler_angles/XZX", "quaternion", "angle_axis", "setters/Parameter", "setters/buffer", "setters/requires_grad_toggle", "transform_points", "transform_vectors", "builders", "quaternion_getter/negative_w", "matmul/three_operands"]
+    out += [f"order/{o}" for o in ORDERS] + ["euler2d", "euler_angles/ZXZ", "euler_angles/XZX", "quaternion", "angle_axis", "setters/Parameter", "setters/buffer", "setters/requires_grad_toggle", "transform_points", "transform_vectors", "builders", "quaternion_getter/negative_w", "matmul/three_operands", "euler_angles/degenerate_middle_angle"]
     return out
 
 
@@ -238,6 +238,9 @@ def case(ctx, i):
         with ctx.guard("euler_rotation_angles", order=order):
             ctx.bucket(f"euler_angles/{order}")
             a = rng.uniform(-np.pi, np.pi, size=(N, 3))
+            if i % 3 == 0:
+                a[0, 1] = float(rng.choice([0.0, np.pi]))  # middle angle exactly 0 or pi: a rotation about the outer axis alone
+                ctx.bucket("euler_angles/degenerate_middle_angle")
             R = np.stack([L.euler(x, order) for x in a])
             ang = A.euler_rotation_angles(torch.tensor(R), order=order)
             back = A.euler_rotation_matrix(ang, order=order)
@@ -362,7 +365,7 @@ def case(ctx, i):
                 a = rng.uniform(-3.0, 3.0, size=(2, 3))
                 a[:, 1] = np.abs(a[:, 1])
                 if rng.integers(0, 4) == 0:  # near gimbal lock: middle angle close to 0 or pi
-                    a[0, 1] = float(rng.choice([1e-4, 1e-3, 1e-2, np.pi - 1e-3, np.pi - 1e-2]))
+                    a[0, 1] = float(rng.choice([0.0, np.pi, 1e-4, 1e-3, 1e-2, np.pi - 1e-3, np.pi - 1e-2]))  # exactly 0 / pi: the rotation is about one axis only
                     ctx.bucket("euler_setter_near_gimbal_lock")
                 R = np.stack([L.euler(x, order) for x in a])
                 t.matrix_(torch.tensor(R, dtype=torch.float32))
